@@ -7,7 +7,9 @@ mkdir -p .bin evidence replays
 (cd tools/extract && go build -o ../../.bin/extract .)
 ASM=$(cd /repo && go list -m -f '{{.Dir}}' github.com/segmentio/asm 2>/dev/null || true)
 [ -d "$ASM" ] || ASM=/root/go/pkg/mod/github.com/segmentio/asm@v1.1.3
-.bin/extract /repo "$ASM/ascii" lean/Enc/Gen/Consts.lean .bin/anchors.json
+(cd tools/asmconsts && go build -o ../../.bin/asmconsts .)
+.bin/extract /repo "$ASM/ascii" lean/Enc/Gen/Consts.lean .bin/anchors.json lean/Enc/Gen/Pools.lean
+.bin/asmconsts "$ASM/ascii" > lean/Enc/Gen/AsmConsts.lean
 (cd lean && lake build Enc encdriver)
 cp /repo/go.sum harness/go.sum
 (cd harness && go build -tags verif -o ../.bin/vh-default . && go build -tags "verif purego" -o ../.bin/vh-purego . &&
